@@ -479,4 +479,187 @@ theorem setCtx_root (ns0 : NsMap) (i : Nat) (xm : NsMap) :
   unfold setCtx entered
   simp [popCtx]
 
+/-! ### the collect loop over the open constraints (elements.py:912-950) -/
+
+theorem collectOne_ctrs (env : Env) (n : Nat) (st : St) (c c' : Nat) :
+    (collectOne env n st c).ctrs c' =
+      if c' = c then (collectRes env n c (st.ctrs c)).1 else st.ctrs c' := by
+  unfold collectOne collectRes
+  cases h : st.ctrs c with
+  | none => by_cases hc : c' = c <;> simp [hc, h]
+  | some k =>
+    simp only
+    split
+    · by_cases hc : c' = c <;> simp [hc, h]
+    · generalize offer (env.kind c) k.table (env.fields c n) = o
+      obtain ⟨tb, e⟩ := o
+      cases e with
+      | none => by_cases hc : c' = c <;> simp [St.put, hc]
+      | some e => cases e <;> by_cases hc : c' = c <;> simp [St.put, St.err, hc]
+
+theorem collectOne_errs (env : Env) (n : Nat) (st : St) (c : Nat) :
+    (collectOne env n st c).errs = (collectRes env n c (st.ctrs c)).2.toList ++ st.errs := by
+  unfold collectOne collectRes
+  cases h : st.ctrs c with
+  | none => simp
+  | some k =>
+    simp only
+    split
+    · simp
+    · generalize offer (env.kind c) k.table (env.fields c n) = o
+      obtain ⟨tb, e⟩ := o
+      cases e with
+      | none => simp [St.put]
+      | some e => cases e <;> simp [St.put, St.err, toErr]
+
+theorem collectOne_order (env : Env) (n : Nat) (st : St) (c : Nat) :
+    (collectOne env n st c).order = st.order := by
+  unfold collectOne
+  cases h : st.ctrs c with
+  | none => rfl
+  | some k =>
+    simp only
+    split
+    · rfl
+    · generalize offer (env.kind c) k.table (env.fields c n) = o
+      obtain ⟨tb, e⟩ := o
+      cases e with
+      | none => simp [St.put, h]
+      | some e => cases e <;> simp [St.put, St.err, h]
+
+/-- the dict invariant: `order` lists exactly the constraints that have a counter, once each -/
+structure OrderInv (st : St) : Prop where
+  nodup : st.order.Nodup
+  mem : ∀ c, c ∈ st.order ↔ (st.ctrs c).isSome = true
+
+theorem OrderInv.init : OrderInv St.init := ⟨List.nodup_nil, by simp [St.init]⟩
+
+theorem OrderInv.put {st : St} (h : OrderInv st) (c : Nat) (k : Ctr) : OrderInv (st.put c k) := by
+  unfold St.put
+  cases hc : (st.ctrs c).isSome with
+  | true =>
+    refine ⟨by simpa using h.nodup, fun c' => ?_⟩
+    by_cases e : c' = c
+    · subst e; simp [(h.mem c').mpr hc]
+    · simp [e, h.mem c']
+  | false =>
+    have hn : c ∉ st.order := fun hm => by simp [(h.mem c).mp hm] at hc
+    refine ⟨?_, fun c' => ?_⟩
+    · simp only [Bool.false_eq_true, if_false]
+      exact List.nodup_append.mpr ⟨h.nodup, by simp, by
+        intro a ha b hb; simp at hb; subst hb; exact fun e => hn (e ▸ ha)⟩
+    · by_cases e : c' = c
+      · subst e; simp
+      · simp [e, h.mem c']
+
+theorem OrderInv.congr {st st' : St} (h : OrderInv st) (ho : st'.order = st.order)
+    (hc : st'.ctrs = st.ctrs) : OrderInv st' :=
+  ⟨ho ▸ h.nodup, fun c => by rw [ho, hc]; exact h.mem c⟩
+
+theorem OrderInv.enterOne {st : St} (h : OrderInv st) (n c : Nat) : OrderInv (enterOne n st c) := by
+  unfold _root_.XsVerif.Identity.enterOne
+  have hp := h.put c ⟨n, true, []⟩
+  cases st.ctrs c with
+  | none => exact hp
+  | some k =>
+    simp only
+    split
+    · exact hp.congr rfl rfl
+    · exact hp
+
+theorem OrderInv.collectOne {st : St} (h : OrderInv st) (env : Env) (n c : Nat) :
+    OrderInv (collectOne env n st c) := by
+  refine ⟨by rw [collectOne_order]; exact h.nodup, fun c' => ?_⟩
+  rw [collectOne_order, collectOne_ctrs, h.mem c']
+  by_cases e : c' = c
+  · subst e
+    simp only [if_true]
+    unfold collectRes
+    cases st.ctrs c' with
+    | none => simp
+    | some k =>
+      simp only
+      split
+      · simp
+      · generalize offer (env.kind c') k.table (env.fields c' n) = o
+        obtain ⟨tb, e⟩ := o
+        simp
+  · simp [e]
+
+theorem OrderInv.ensureRefer {st : St} (h : OrderInv st) (n r : Nat) :
+    OrderInv (ensureRefer n st r) := by
+  unfold _root_.XsVerif.Identity.ensureRefer
+  cases st.ctrs r with
+  | none => exact h.put _ _
+  | some _ => exact h
+
+theorem OrderInv.leaveOne {st : St} (h : OrderInv st) (env : Env) (n c : Nat) :
+    OrderInv (leaveOne env n st c) := by
+  unfold _root_.XsVerif.Identity.leaveOne
+  cases st.ctrs c with
+  | none => exact h
+  | some k =>
+    simp only
+    have hp := h.put c { k with enabled := false }
+    split
+    · cases env.refer c with
+      | none => exact hp
+      | some r => exact (hp.ensureRefer n r).congr rfl rfl
+    · exact hp
+
+theorem OrderInv.foldl {α : Type} {f : St → α → St} (hf : ∀ st a, OrderInv st → OrderInv (f st a))
+    (l : List α) {st : St} (h : OrderInv st) : OrderInv (l.foldl f st) := by
+  induction l generalizing st with
+  | nil => exact h
+  | cons a l ih => exact ih (hf st a h)
+
+theorem OrderInv.step {st : St} (h : OrderInv st) (env : Env) (ev : Ev) : OrderInv (step env st ev) := by
+  cases ev with
+  | enter n cs => exact OrderInv.foldl (fun st c hs => hs.enterOne n c) cs h
+  | collect n cs => exact OrderInv.foldl (fun st c hs => hs.collectOne env n c) cs h
+  | collectOpen n => exact OrderInv.foldl (fun st c hs => hs.collectOne env n c) st.order h
+  | leave n cs => exact OrderInv.foldl (fun st c hs => hs.leaveOne env n c) cs h
+
+theorem filterMap_congr_mem {α β : Type} {f g : α → Option β} {l : List α}
+    (h : ∀ a ∈ l, f a = g a) : l.filterMap f = l.filterMap g := by
+  induction l with
+  | nil => rfl
+  | cons a l ih =>
+    have h1 := h a List.mem_cons_self
+    have h2 := ih fun b hb => h b (List.mem_cons_of_mem _ hb)
+    simp only [List.filterMap_cons, h1, h2]
+
+/-- the loop over ANY duplicate-free list of constraints: every item acts on its own counter as if
+    it were alone, and the errors are the items' errors in the order of the list -/
+theorem collect_fold_spec (env : Env) (n : Nat) (os : List Nat) (hn : os.Nodup) (st : St) :
+    (∀ c, (os.foldl (collectOne env n) st).ctrs c =
+        if c ∈ os then (collectRes env n c (st.ctrs c)).1 else st.ctrs c) ∧
+    (os.foldl (collectOne env n) st).errs =
+      (os.filterMap fun c => (collectRes env n c (st.ctrs c)).2).reverse ++ st.errs := by
+  induction os generalizing st with
+  | nil => simp
+  | cons a os ih =>
+    obtain ⟨ha, hn'⟩ := List.nodup_cons.mp hn
+    obtain ⟨i1, i2⟩ := ih hn' (collectOne env n st a)
+    have hrest : ∀ c ∈ os, (collectOne env n st a).ctrs c = st.ctrs c := by
+      intro c hc
+      have : c ≠ a := fun e => ha (e ▸ hc)
+      rw [collectOne_ctrs]; simp [this]
+    refine ⟨fun c => ?_, ?_⟩
+    · rw [List.foldl_cons, i1 c]
+      by_cases hc : c ∈ os
+      · have : c ≠ a := fun e => ha (e ▸ hc)
+        simp [hc, hrest c hc]
+      · by_cases e : c = a
+        · subst e; simp [hc, collectOne_ctrs]
+        · simp [hc, e, collectOne_ctrs]
+    · rw [List.foldl_cons, i2, collectOne_errs]
+      have : (os.filterMap fun c => (collectRes env n c ((collectOne env n st a).ctrs c)).2) =
+          os.filterMap fun c => (collectRes env n c (st.ctrs c)).2 := by
+        apply filterMap_congr_mem
+        intro c hc
+        rw [hrest c hc]
+      rw [this]
+      cases h : (collectRes env n a (st.ctrs a)).2 <;> simp [h]
+
 end XsVerif.Identity
